@@ -382,12 +382,15 @@ def r055(model, rep, ck):
     mv = ck.arm.methods.get('move')
     if mv is None:
         raise AnalysisError('anchor vanished: Arm.move')
+    from .common_ops import flat_method as _fm55
+    mv_params = mv.params
+    mv = _fm55(ck.arm, 'move')                    # a private re-base helper is read in place
     calls = [c for c in walk_own(mv.node) if isinstance(c, ast.Call) and isinstance(c.func, ast.Attribute) and c.func.attr == 'initialize']
     ok = len(calls) == 1 and len(calls[0].args) >= 3
     if ok:
         il = Inliner(mv)
         a = [il.text(x) for x in calls[0].args]
-        ok = a[0] == mv.params[1] and a[1] in ('self.original_screw_list.copy()', 'np.copy(self.original_screw_list)') \
+        ok = a[0] == mv_params[1] and a[1] in ('self.original_screw_list.copy()', 'np.copy(self.original_screw_list)') \
             and a[2] == 'self._end_effector_home_local'
         rep.ob('R05.5', mv, src(calls[0])[:110], ok,
                'move must re-initialise from (new base, a COPY of the stored original screws, the LOCAL home pose); got (%s)' % ', '.join(a[:3]),
